@@ -223,6 +223,25 @@ func VerifC07Startup() {
 	rt.unimplemented = map[int]bool{2048: !t.has["inBandResize"]}
 	rt.feed(t.log)
 	verifRestored(rt, vx, "session")
+	// over the whole session (queries excepted, which are how features are discovered) only
+	// advertised features were used: sixel scrolling, kitty keyboard, Unicode core,
+	// colour-scheme updates, synchronized output
+	gated := true
+	for tag := range rt.tags {
+		switch tag {
+		case "sixels":
+			gated = gated && t.has["sixel"]
+		case "kittyKeyboard":
+			gated = gated && t.has["kittyKeyboard"]
+		case "unicodeCore":
+			gated = gated && t.has["unicodeCore"]
+		case "colorThemeUpdates":
+			gated = gated && t.has["colorTheme"]
+		case "synchronizedUpdate":
+			gated = gated && t.has["sync"]
+		}
+	}
+	zzverif.Assert(gated, "session:only-advertised-features-used")
 	zzverif.Assert(rt.shape == t.style, "session:cursor-shape-back-at-the-user's")
 	zzverif.Reach("end")
 }
